@@ -8,7 +8,8 @@ from plogio import *
 RULE = ("validated plain models (depth 0-4, every connective incl. Xor/XNor/Imply/Not, explicit signs, shared sub-propositions, boolean and "
         "integer leaves incl. negative and 16-bit ranges, no pre-fixed sub-proposition) x in-bounds leaf assignments (exhaustive when the box has "
         "<= cap points, else random with corner bias), asserted and non-asserted polyhedron; non-trivial = depth >= 2 or a shared node or an "
-        "integer leaf; distinct by canonical text of the model")
+        "integer leaf; distinct by canonical text of the model. Every third nested model is followed by a look-alike sibling (same ids/values/signs, deeper leaf "
+        "bounds (lo-d, hi+d) with the same lower+upper) converted in the same process")
 
 def poly_obs(m, active):
     ph = m.to_ge_polyhedron(active)
@@ -39,6 +40,24 @@ def oracle_model(res, ast, m, rng, n_env, cap):
                         "problem": f"active={active}: extended assignment {'satisfies' if ok else 'violates'} the system but the model evaluates to {top}"}
     return None
 
+def lookalike(ast, d, depth=0, memo=None):
+    """a sibling model: same classes, ids, values, signs; every leaf at depth >= 2 gets bounds (lo-d, hi+d)
+    (same lower+upper, i.e. same Bounds hash; the top node's __eq__/__hash__ cannot tell the two apart)"""
+    memo = {} if memo is None else memo
+    if id(ast) in memo:
+        return memo[id(ast)]
+    if ast["k"] in ("str", "var"):
+        if depth >= 2:
+            lo, hi = ast.get("b", [0, 1])
+            r = {"k": "var", "id": ast["id"], "b": [lo - d, hi + d]}
+        else:
+            r = dict(ast)
+    else:
+        r = {k: v for k, v in ast.items() if k != "ch"}
+        r["ch"] = [lookalike(c, d, depth + 1, memo) for c in ast.get("ch", [])]
+    memo[id(ast)] = r
+    return r
+
 def run(res, tier, seed):
     rng = random.Random(seed * 1000003 + 1)
     res.rule = RULE
@@ -63,6 +82,23 @@ def run(res, tier, seed):
             cases.append((lambda it, m=m, active=active, cols=cols, rows=rows:
                           f"({b(active)}, {dump(m, it)}, {lst(f'({it.s(c)}, ({z(lo)}, {z(hi)}))' for c, (lo, hi) in cols)}, {lst(lst(z(v) for v in r) for r in rows)})", (ast, active)))
         res.sample({"model": repr(m), "rows_active": poly_obs(m, True)[1][:4]})
+        # look-alike sibling converted right after the original (process-wide state keyed by __eq__/__hash__ must not leak)
+        if depth_of(m) >= 2 and len(cases) % 3 == 0:
+            ast2 = lookalike(ast, rng.choice([1, 2]))
+            try:
+                m2 = build(ast2)
+                if not is_var(m2) and not m2.errors() and plain(m2):
+                    res.count("lookalike_sibling")
+                    bad = oracle_model(res, ast2, m2, rng, 6 if tier == "quick" else 20, 0 if tier == "quick" else 400)
+                    if bad:
+                        res.violation("oracle", f"{bad['problem']} on {m2!r} at {bad['env']} (converted after its look-alike {m!r})",
+                                      dict(bad, converted_before=ast_json(ast)))
+                    for active in (True, False):
+                        cols, rows = poly_obs(m2, active)
+                        cases.append((lambda it, m=m2, active=active, cols=cols, rows=rows:
+                                      f"({b(active)}, {dump(m, it)}, {lst(f'({it.s(c)}, ({z(lo)}, {z(hi)}))' for c, (lo, hi) in cols)}, {lst(lst(z(v) for v in r) for r in rows)})", (ast2, active)))
+            except Exception as e:
+                res.count("lookalike_build_error:" + type(e).__name__)
     n, failing, errs = run_case_shards("C01", "encode", "", "bool * prop * list (ident * (Z * Z)) * list (list Z)", "check_encode", cases)
     res.corr_cases += n; res.evaluations += n
     for e in errs:
@@ -78,6 +114,8 @@ def run(res, tier, seed):
 
 def replay(payload):
     r = payload.get("replay", payload)
+    if r.get("converted_before"):
+        m0 = build(r["converted_before"]); m0.to_ge_polyhedron(True); m0.to_ge_polyhedron(False)
     m = build(r["model"])
     if "env" not in r:
         print("model", m, "polyhedron", poly_obs(m, r.get("active", True))); return 1
